@@ -15,7 +15,7 @@ func init() {
 		Explanation: "Decides the framing constants and the bounds checks around them, not round-trip under chunking: (pktline-constants) MaxSize == 65520, LenSize == 4, MaxPayloadSize == MaxSize-LenSize, the special packets are " +
 			"0000/0001/0002 and the empty packet 0004, sideband limits 1000/65520 and channels 1/2/3, and the muxer's chunk size is maxSize - LenSize - 1; (length-guards) Write emits a length only after len(p) <= MaxPayloadSize, " +
 			"Read reads the payload only after length <= len(p), ParseLength rejects 3 and values above MaxSize, the demuxer rejects packets above its maximum; (no-truncating-copy) a copy() into a fixed-size array in the framing packages has a constant offset and is dominated by a bound on the source's length that fits the room left " +
-			"(or the source has a static size that fits), and a copy into a caller's buffer uses the returned count. Not decided: demultiplexing for arbitrary read sizes; resynchronisation.",
+			"(or the source has a static size that fits), and a copy into a caller's buffer uses the returned count. (pending-drained-before-next-packet) no exported method of the sideband Demuxer can advance the packet scanner without having consulted the parked tail of a partially read packet first (interprocedural over the Demuxer's methods). Not decided: demultiplexing for arbitrary read sizes beyond that; resynchronisation.",
 		Assumptions: []string{},
 		Run:         runC34,
 	})
@@ -45,7 +45,7 @@ func init() {
 		ID: "C31",
 		Explanation: "Decides that the three places that interpret core.autocrlf agree: (autocrlf-sets) add normalises to LF for the values {true,input} (fillEncodedObjectFromFile), status hashes normalised content for the same set " +
 			"(diffStagingWithWorktree), checkout converts to CRLF for {true} only; (binary-gate) each of the three sites decides on conversion only after convert.GetStat, on the !IsBinary() edge; (carry-state-updated) the streaming converters of utils/convert refresh every receiver field they keep between Write calls on each path that consumes a chunk (only the empty-chunk edge is exempt), " +
-			"so a line ending split across two chunks is seen; (crlf-untouched) the LF-to-CRLF writer is installed on checkout only on the Stat.CRLF == 0 edge, as git's will_convert_lf_to_crlf does. Not decided: the converted bytes themselves; " +
+			"so a line ending split across two chunks is seen; (crlf-untouched) the LF-to-CRLF writer is installed on checkout only on the Stat.CRLF == 0 edge, as git's will_convert_lf_to_crlf does. (crlf-pair-state-carried) every increment of Stat.CRLF is guarded by a condition that reads state carried from one read of the stream to the next, so a CR LF pair that straddles two reads is still a pair. Not decided: the converted bytes themselves; " +
 			"the add side's 'blob in the index already has CRLF' exception.",
 		Assumptions: []string{},
 		Run:         runC31,
@@ -188,6 +188,9 @@ func runC34(c *Ctx) {
 		c.Check(ok, r2, np.Name()+":max-packed", np.Decl.Pos(), "packets above the sideband maximum are rejected")
 	}
 	c.Floor(r2, 5)
+	// the demuxer parks the unread tail of a pack-data packet; every way of taking data out of it starts there
+	PendingDrainedBeforeAdvance(c, "pending-drained-before-next-packet", "plumbing/protocol/packp/sideband", "Demuxer", "pending", "s", "Scan")
+	c.Floor("pending-drained-before-next-packet", 1)
 }
 
 func runC12(c *Ctx) {
@@ -698,4 +701,165 @@ func runC31(c *Ctx) {
 		c.Check(okAll && nSites > 0, r3, checkout.Name(), checkout.Decl.Pos(), orStr(ifStr(!okAll, "the LF->CRLF writer is installed although the content may already contain CRLF: git leaves such content untouched, go-git would convert its lone LFs"), "LF->CRLF conversion is installed only on the Stat.CRLF == 0 edge"))
 	}
 	c.Floor(r3, 1)
+	checkPairStateCarried(c, "crlf-pair-state-carried")
+	c.Floor("crlf-pair-state-carried", 1)
+}
+
+// checkPairStateCarried (C31): the statistics that decide text/binary count CR LF pairs over a stream that is read in
+// pieces. A pair can straddle two reads, so the decision "this LF completes a CRLF" has to rest on state that survives
+// from one piece to the next: a variable declared outside the loop that takes the bytes and assigned inside it, or a
+// field of the receiver assigned in the function. A look-ahead inside the current piece (data[i+1]) cannot see the
+// first byte of the next piece: the pair is counted as a lone CR (binary!) and a lone LF. Every increment of Stat.CRLF
+// must sit under a condition that reads such a carried variable.
+func checkPairStateCarried(c *Ctx, rule string) {
+	p := c.P
+	const cv = "utils/convert"
+	pk := p.Pkg(cv)
+	if pk == nil {
+		c.Unresolved(rule, "package "+cv, 0, "not loaded")
+		return
+	}
+	info := pk.TypesInfo
+	st := p.lookupType(cv, "Stat")
+	var crlf *types.Var
+	if st != nil {
+		crlf = fieldOf(st, "CRLF")
+	}
+	if crlf == nil {
+		c.Unresolved(rule, cv+".Stat.CRLF", 0, "field not found")
+		return
+	}
+	for _, fi := range p.FuncsIn(cv) {
+		if fi.Decl.Body == nil || p.isTestFile(fi.Decl.Pos()) {
+			continue
+		}
+		var recv types.Object
+		if fi.Decl.Recv != nil && len(fi.Decl.Recv.List) > 0 && len(fi.Decl.Recv.List[0].Names) > 0 {
+			recv = info.Defs[fi.Decl.Recv.List[0].Names[0]]
+		}
+		// walk with the stack of enclosing conditions and loops
+		type frame struct {
+			cond ast.Expr
+			loop ast.Node
+		}
+		k := 0
+		var walk func(n ast.Node, stack []frame)
+		check := func(pos token.Pos, stack []frame) {
+			k++
+			c.Analysed(fi)
+			// the loops the increment sits in
+			var loops []ast.Node
+			for _, fr := range stack {
+				if fr.loop != nil {
+					loops = append(loops, fr.loop)
+				}
+			}
+			carried := func(o types.Object) bool {
+				if o == nil {
+					return false
+				}
+				v, ok := o.(*types.Var)
+				if !ok {
+					return false
+				}
+				assignedIn := func(scope ast.Node) bool {
+					found := false
+					ast.Inspect(scope, func(x ast.Node) bool {
+						if as, ok := x.(*ast.AssignStmt); ok {
+							for _, l := range as.Lhs {
+								if objOfSel(info, l) == o && as.Tok != token.DEFINE {
+									found = true
+								}
+							}
+						}
+						return !found
+					})
+					return found
+				}
+				if v.IsField() {
+					// a field of the receiver (other than the counters), assigned in this function
+					return v != crlf && assignedIn(fi.Decl.Body)
+				}
+				if len(loops) == 0 {
+					return false
+				}
+				outer := loops[0]
+				declaredOutside := !(o.Pos() >= outer.Pos() && o.Pos() <= outer.End())
+				return declaredOutside && assignedIn(outer)
+			}
+			has := false
+			for _, fr := range stack {
+				if fr.cond == nil {
+					continue
+				}
+				ast.Inspect(fr.cond, func(x ast.Node) bool {
+					switch v := x.(type) {
+					case *ast.Ident:
+						if carried(info.Uses[v]) {
+							has = true
+						}
+					case *ast.SelectorExpr:
+						if recv != nil && objOf(info, v.X) == recv && carried(info.Uses[v.Sel]) {
+							has = true
+						}
+					}
+					return !has
+				})
+			}
+			c.Check(has, rule, fi.Name()+":CRLF++"+ifStr(k > 1, "#"+itoa(k)), pos, orStr(ifStr(!has, "a CR LF pair is counted under conditions that read nothing carried from one piece of the stream to the next (only the bytes of the current piece): a pair that straddles two reads is counted as a lone CR and a lone LF, and a CRLF text file is taken for binary"),
+				"the pair is recognised with state carried across reads"))
+		}
+		walk = func(n ast.Node, stack []frame) {
+			switch v := n.(type) {
+			case nil:
+				return
+			case *ast.FuncLit:
+				return
+			case *ast.IfStmt:
+				walk(v.Init, stack)
+				walk(v.Body, append(stack[:len(stack):len(stack)], frame{cond: v.Cond}))
+				if v.Else != nil {
+					walk(v.Else, append(stack[:len(stack):len(stack)], frame{cond: v.Cond}))
+				}
+				return
+			case *ast.ForStmt:
+				walk(v.Body, append(stack[:len(stack):len(stack)], frame{loop: v}))
+				return
+			case *ast.RangeStmt:
+				walk(v.Body, append(stack[:len(stack):len(stack)], frame{loop: v}))
+				return
+			case *ast.SwitchStmt:
+				for _, cl := range v.Body.List {
+					cc := cl.(*ast.CaseClause)
+					var cond ast.Expr
+					if len(cc.List) > 0 {
+						cond = cc.List[0]
+					}
+					for _, s := range cc.Body {
+						walk(s, append(stack[:len(stack):len(stack)], frame{cond: cond}))
+					}
+				}
+				return
+			case *ast.BlockStmt:
+				for _, s := range v.List {
+					walk(s, stack)
+				}
+				return
+			case *ast.IncDecStmt:
+				if v.Tok == token.INC && objOfSel(info, v.X) == types.Object(crlf) {
+					check(v.Pos(), stack)
+				}
+				return
+			case *ast.AssignStmt:
+				if v.Tok == token.ADD_ASSIGN && len(v.Lhs) == 1 && objOfSel(info, v.Lhs[0]) == types.Object(crlf) {
+					check(v.Pos(), stack)
+				}
+				return
+			case *ast.LabeledStmt:
+				walk(v.Stmt, stack)
+				return
+			}
+		}
+		walk(fi.Decl.Body, nil)
+	}
 }
